@@ -352,7 +352,13 @@ async fn exchange_h1(v: &Vector, client: DuplexStream, wait: Duration) -> Obs {
                 // the client pauses before its last byte for longer than the session timeout (UlClientStalls)
                 match c.read_head(if l > 1 { STALL } else { QUIET }).await {
                     Head::Nothing if !failed => {
-                        if let Ok(Ok(())) = tokio::time::timeout(wait, c.io.write_all(&ZEROS[..1])).await {
+                        // the last byte of the body, and - rotating over the vectors - octets that follow the body
+                        // in the same write (a stray CRLF after a POST body, RFC 7230 3.5; a client that overshoots):
+                        // they do not belong to the upload, which is complete at Content-Length
+                        let surplus: &[u8] = match v.id.bytes().map(|b| b as usize).sum::<usize>() % 3 { 0 => b"", 1 => b"\r\n", _ => &ZEROS[..16] };
+                        let mut last = ZEROS[..1].to_vec();
+                        last.extend_from_slice(surplus);
+                        if let Ok(Ok(())) = tokio::time::timeout(wait, c.io.write_all(&last)).await {
                             o.sent += 1;
                         }
                     }
